@@ -527,7 +527,7 @@ package scanner
 //@   tag C17 C05 C01
 //@   requires ParamsWF(s)
 //@   modifies nothing
-//@   ensures [C17] ret <==> (exists k :: 0 <= k && k < len(s.lastDirectiveParameters) && beq(unq(lexv(s.lastDirectiveParameters[k].file.content, s.lastDirectiveParameters[k].begin, s.lastDirectiveParameters[k].end)), regexType))
+//@   ensures [C17,C05] ret <==> (exists k :: 0 <= k && k < len(s.lastDirectiveParameters) && beq(unq(lexv(s.lastDirectiveParameters[k].file.content, s.lastDirectiveParameters[k].begin, s.lastDirectiveParameters[k].end)), regexType))
 //@   loop 1 invariant 0 - 1 <= rangeindex && rangeindex <= rangelen - 1 && rangelen == len(s.lastDirectiveParameters)
 //@   loop 1 invariant forall k :: 0 <= k && k <= rangeindex && k < rangelen ==> !beq(unq(lexv(s.lastDirectiveParameters[k].file.content, s.lastDirectiveParameters[k].begin, s.lastDirectiveParameters[k].end)), regexType)
 //@   loop 1 decreases rangelen - rangeindex
@@ -537,7 +537,7 @@ package scanner
 //@   tag C17 C05 C01
 //@   requires ParamsWF(s)
 //@   modifies nothing
-//@   ensures [C17] ret <==> (exists k :: 0 <= k && k < len(s.lastDirectiveParameters) && typeOrAnyOrEmpty(tsb(unq(lexv(s.lastDirectiveParameters[k].file.content, s.lastDirectiveParameters[k].begin, s.lastDirectiveParameters[k].end)))))
+//@   ensures [C17,C05] ret <==> (exists k :: 0 <= k && k < len(s.lastDirectiveParameters) && typeOrAnyOrEmpty(tsb(unq(lexv(s.lastDirectiveParameters[k].file.content, s.lastDirectiveParameters[k].begin, s.lastDirectiveParameters[k].end)))))
 //@   loop 1 invariant 0 - 1 <= rangeindex && rangeindex <= rangelen - 1 && rangelen == len(s.lastDirectiveParameters)
 //@   loop 1 invariant forall k :: 0 <= k && k <= rangeindex && k < rangelen ==> !typeOrAnyOrEmpty(tsb(unq(lexv(s.lastDirectiveParameters[k].file.content, s.lastDirectiveParameters[k].begin, s.lastDirectiveParameters[k].end))))
 //@   loop 1 decreases rangelen - rangeindex
@@ -549,7 +549,7 @@ package scanner
 //@   tag C17 C05 C01
 //@   requires ParamsWF(s)
 //@   modifies nothing
-//@   ensures [C17] !ret <==> (exists k :: 0 <= k && k < len(s.lastDirectiveParameters) && anyOrEmpty(tsb(unq(lexv(s.lastDirectiveParameters[k].file.content, s.lastDirectiveParameters[k].begin, s.lastDirectiveParameters[k].end)))))
+//@   ensures [C17,C05] !ret <==> (exists k :: 0 <= k && k < len(s.lastDirectiveParameters) && anyOrEmpty(tsb(unq(lexv(s.lastDirectiveParameters[k].file.content, s.lastDirectiveParameters[k].begin, s.lastDirectiveParameters[k].end)))))
 //@   loop 1 invariant 0 - 1 <= rangeindex && rangeindex <= rangelen - 1 && rangelen == len(s.lastDirectiveParameters)
 //@   loop 1 invariant forall k :: 0 <= k && k <= rangeindex && k < rangelen ==> !anyOrEmpty(tsb(unq(lexv(s.lastDirectiveParameters[k].file.content, s.lastDirectiveParameters[k].begin, s.lastDirectiveParameters[k].end))))
 //@   loop 1 decreases rangelen - rangeindex
